@@ -36,9 +36,9 @@ const (
 
 type op struct {
 	kind  opKind
-	sub   int  // subscription slot
-	both  bool // subscribe to A and B
-	id    int  // event id
+	sub   int    // subscription slot
+	types string // argument list of Subscribe, one letter per argument: "A", "AB", "AA" (rejected), "ABA", "" ...
+	id    int    // event id
 	start int64
 	end   int64
 	err   error
@@ -52,13 +52,13 @@ type scenario struct {
 	setup   []op // executed sequentially before the threads start (pre-registered subscribers)
 }
 
+// inflight: index of the operation thread 0 is executing (sequential histories: names the call that never returned)
+var inflight int
+
 func (o op) String() string {
 	switch o.kind {
 	case opSub:
-		if o.both {
-			return fmt.Sprintf("sub%d(A,B)", o.sub)
-		}
-		return fmt.Sprintf("sub%d(A)", o.sub)
+		return fmt.Sprintf("sub%d(%s)", o.sub, strings.Join(strings.Split(o.types, ""), ","))
 	case opUnsub:
 		return fmt.Sprintf("unsub%d", o.sub)
 	case opPostA:
@@ -70,8 +70,9 @@ func (o op) String() string {
 }
 
 func scenarios(thorough bool) []scenario {
-	S := func(i int) op { return op{kind: opSub, sub: i} }
-	SB := func(i int) op { return op{kind: opSub, sub: i, both: true} }
+	S := func(i int) op { return op{kind: opSub, sub: i, types: "A"} }
+	SB := func(i int) op { return op{kind: opSub, sub: i, types: "AB"} }
+	ST := func(i int, types string) op { return op{kind: opSub, sub: i, types: types} } // any argument list
 	U := func(i int) op { return op{kind: opUnsub, sub: i} }
 	A := func(id int) op { return op{kind: opPostA, id: id} }
 	B := func(id int) op { return op{kind: opPostB, id: id} }
@@ -93,6 +94,11 @@ func scenarios(thorough bool) []scenario {
 		// registered later) must still get every A event: only the subscriber whose OWN buffer is full may miss one
 		{"full-buffer-of-an-earlier-subscriber", [][]op{{B(1), B(2), B(3), B(4), A(5), A(6)}}, 2, []op{SB(0), S(1)}},
 		{"full-buffer-of-an-earlier-subscriber-vs-poster", [][]op{{B(1), B(2), B(3), B(4), A(5)}, {A(6)}}, 2, []op{SB(0), S(1)}},
+		// Subscribe argument lists the dispatcher refuses (one type twice; refused after part of the list was registered)
+		// and the empty list, racing the operations of an established subscriber
+		{"rejected-subscribe-vs-post-unsubscribe", [][]op{{ST(1, "AA")}, {A(1), U(0)}}, 2, []op{S(0)}},
+		{"partly-registered-rejected-subscribe-vs-post-vs-stop", [][]op{{ST(1, "ABA"), B(1)}, {A(2)}, {X}}, 2, []op{SB(0)}},
+		{"empty-subscribe-vs-post-unsubscribe", [][]op{{ST(1, ""), U(1)}, {A(1), U(0)}}, 2, []op{S(0)}},
 	}
 	if thorough {
 		sc = append(sc,
@@ -101,10 +107,24 @@ func scenarios(thorough bool) []scenario {
 			scenario{"unsub-vs-stop", [][]op{{S(0), U(0)}, {X}, {A(1)}}, 1, nil},
 			scenario{"double-unsub", [][]op{{S(0), U(0)}, {U(0)}, {A(1), A(2)}}, 1, nil},
 			scenario{"resubscribe", [][]op{{S(0), U(0), S(1)}, {A(1), A(2), A(3)}}, 2, nil},
+			scenario{"rejected-subscribes-vs-subscribe-vs-post", [][]op{{ST(1, "BB"), ST(2, "AB")}, {ST(3, "BAB"), U(0)}, {A(1), B(2)}}, 4, []op{SB(0)}},
 			scenario{"unsubscribe-two-of-four-vs-posts", [][]op{{U(0), U(2)}, {A(1)}, {B(2), A(3)}}, 4, []op{S(0), SB(1), S(2), SB(3)}},
 		)
 	}
 	return sc
+}
+
+// subArgs turns "ABA" into the argument list (evA{}, evB{}, evA{}).
+func subArgs(types string) []interface{} {
+	var args []interface{}
+	for _, c := range types {
+		if c == 'A' {
+			args = append(args, evA{})
+		} else {
+			args = append(args, evB{})
+		}
+	}
+	return args
 }
 
 type world struct {
@@ -113,7 +133,8 @@ type world struct {
 	ops  [][]op
 }
 
-func body(sc scenario) func(x *vsched.Exec) {
+// body: seq = one thread, checked against the exact sequential reference (checkSeq)
+func body(sc scenario, seq bool) func(x *vsched.Exec) {
 	return func(x *vsched.Exec) {
 		vtime.Reset()
 		w := &world{d: event.NewDispatcher(), subs: make([]*event.Subscription, sc.nsubs)}
@@ -128,11 +149,7 @@ func body(sc scenario) func(x *vsched.Exec) {
 				o := &setupOps[i]
 				o.start = int64(vtime.Now().UnixNano())
 				var sub *event.Subscription
-				if o.both {
-					sub, o.err = w.d.Subscribe(evA{}, evB{})
-				} else {
-					sub, o.err = w.d.Subscribe(evA{})
-				}
+				sub, o.err = w.d.Subscribe(subArgs(o.types)...)
 				w.subs[o.sub] = sub
 				o.end = int64(vtime.Now().UnixNano())
 				o.done = true
@@ -144,16 +161,15 @@ func body(sc scenario) func(x *vsched.Exec) {
 			x.Spawn(fmt.Sprintf("T%d", t), func() {
 				for i := range w.ops[t] {
 					o := &w.ops[t][i]
+					if seq {
+						inflight = i
+					}
 					o.start = int64(vtime.Now().UnixNano())
 					switch o.kind {
 					case opSub:
 						var s *event.Subscription
 						var err error
-						if o.both {
-							s, err = w.d.Subscribe(evA{}, evB{})
-						} else {
-							s, err = w.d.Subscribe(evA{})
-						}
+						s, err = w.d.Subscribe(subArgs(o.types)...)
 						o.err = err
 						w.subs[o.sub] = s
 					case opUnsub:
@@ -173,6 +189,10 @@ func body(sc scenario) func(x *vsched.Exec) {
 			})
 		}
 		x.Join()
+		if seq {
+			checkSeq(x, sc, w)
+			return
+		}
 		check(x, sc, w)
 	}
 }
@@ -201,6 +221,20 @@ func check(x *vsched.Exec, sc scenario, w *world) {
 			}
 			if o.end < stopStart && o.err != nil {
 				x.Fail("post-before-stop-failed", fmt.Sprintf("%s returned %v before Stop began", o, o.err))
+			}
+		}
+	}
+	// subscribes: an argument list naming one type twice is refused (while the dispatcher runs), any other is accepted
+	for _, th := range w.ops {
+		for _, o := range th {
+			if o.kind != opSub {
+				continue
+			}
+			if !dupTypes(o.types) && o.err != nil {
+				x.Fail("subscribe-result-wrong", fmt.Sprintf("%s returned %v", o, o.err))
+			}
+			if dupTypes(o.types) && o.end < stopStart && (o.err != event.ErrDuplicateSubscribe || w.subs[o.sub] != nil) {
+				x.Fail("subscribe-result-wrong", fmt.Sprintf("%s (one type twice) returned err=%v, subscription nil=%v", o, o.err, w.subs[o.sub] == nil))
 			}
 		}
 	}
@@ -250,8 +284,11 @@ func check(x *vsched.Exec, sc scenario, w *world) {
 			}
 			seen[k] = true
 			ids = append(ids, k)
-			if _, isB := g.(evB); isB && !subOp.both {
-				x.Fail("event-of-unsubscribed-type-delivered", fmt.Sprintf("subscriber %d (A only) got %s", si, k))
+			if _, isB := g.(evB); isB && !strings.Contains(subOp.types, "B") {
+				x.Fail("event-of-unsubscribed-type-delivered", fmt.Sprintf("subscriber %d (%s only) got %s", si, subOp.types, k))
+			}
+			if _, isA := g.(evA); isA && !strings.Contains(subOp.types, "A") {
+				x.Fail("event-of-unsubscribed-type-delivered", fmt.Sprintf("subscriber %d (%s only) got %s", si, subOp.types, k))
 			}
 		}
 		// per-poster order
@@ -274,12 +311,13 @@ func check(x *vsched.Exec, sc scenario, w *world) {
 					continue
 				}
 				var k string
-				wanted := true
+				var wanted bool
 				if o.kind == opPostA {
 					k = fmt.Sprintf("%T%v", evA{o.id}, evA{o.id})
+					wanted = strings.Contains(subOp.types, "A")
 				} else {
 					k = fmt.Sprintf("%T%v", evB{o.id}, evB{o.id})
-					wanted = subOp.both
+					wanted = strings.Contains(subOp.types, "B")
 				}
 				p, received := pos[k]
 				if received {
@@ -314,6 +352,274 @@ func check(x *vsched.Exec, sc scenario, w *world) {
 	x.Observe(strings.Join(summary, " ") + " " + strings.Join(errs, ","))
 }
 
+func dupTypes(types string) bool {
+	for i := range types {
+		if strings.IndexByte(types, types[i]) != i {
+			return true
+		}
+	}
+	return false
+}
+
+// ---------------------------------------------------------------------------
+// sequential histories: EVERY operation sequence of a given length over the alphabet
+//   sub_i(list) for two subscriber slots and every argument list in seqShapes, unsub_i, postA, postB, stop
+// executed by one thread (so the sequence is the history) and compared with an exact reference: nobody reads before the
+// end, so a subscriber must hold exactly the first bufCap events of its types posted while it was subscribed, in order.
+
+// refSub / refRun: the reference model.
+type refSub struct {
+	have   bool // Subscribe returned a subscription
+	types  string
+	closed bool
+	// closedAny: a subscription to NO type after Stop. The dispatcher registers it nowhere, so Stop does not close its
+	// channel (the comment of Subscribe promises it would); the property says nothing about it: either state is accepted
+	// and the open one is recorded in the outcome ("open-after-stop").
+	closedAny bool
+	q         []string
+}
+
+type refResult struct {
+	errs    []error
+	subs    [2]refSub
+	stopped bool
+}
+
+func refRun(seq []op) refResult {
+	var r refResult
+	for _, o := range seq {
+		var err error
+		switch o.kind {
+		case opSub:
+			switch {
+			case r.stopped: // documented: a subscription that is already closed
+				r.subs[o.sub] = refSub{have: true, closed: true}
+			case dupTypes(o.types):
+				err = event.ErrDuplicateSubscribe
+			default:
+				r.subs[o.sub] = refSub{have: true, types: o.types}
+			}
+		case opUnsub:
+			r.subs[o.sub].closed, r.subs[o.sub].closedAny = true, false
+		case opPostA, opPostB:
+			if r.stopped {
+				err = event.ErrMuxClosed
+				break
+			}
+			typ, k := "A", fmt.Sprintf("%T%v", evA{o.id}, evA{o.id})
+			if o.kind == opPostB {
+				typ, k = "B", fmt.Sprintf("%T%v", evB{o.id}, evB{o.id})
+			}
+			for i := range r.subs {
+				if s := &r.subs[i]; s.have && !s.closed && strings.Contains(s.types, typ) && len(s.q) < bufCap {
+					s.q = append(s.q, k)
+				}
+			}
+		case opStop:
+			r.stopped = true
+			for i := range r.subs {
+				if s := &r.subs[i]; s.have && !s.closed && s.types == "" {
+					s.closedAny = true
+				} else {
+					s.closed = true
+				}
+			}
+		}
+		r.errs = append(r.errs, err)
+	}
+	return r
+}
+
+func seqShapes(thorough bool) []string {
+	if thorough {
+		return []string{"A", "B", "AB", "AA", "ABA", "ABB", ""}
+	}
+	return []string{"A", "AB", "AA", "ABB", ""}
+}
+
+// seqHistories: all sequences of exactly n operations (every shorter one is a prefix of one of them: a post is always
+// possible). Each slot is subscribed at most once, slot 1 after slot 0, unsubscribed at most twice and only when Subscribe
+// returned a subscription.
+func seqHistories(n int, shapes []string) [][]op {
+	var out [][]op
+	var gen func(prefix []op, used [2]bool, unsubs [2]int)
+	gen = func(prefix []op, used [2]bool, unsubs [2]int) {
+		if len(prefix) == n {
+			out = append(out, append([]op(nil), prefix...))
+			return
+		}
+		id := len(prefix) + 1
+		r := refRun(prefix)
+		var next []op
+		for i := 0; i < 2; i++ {
+			if !used[i] && (i == 0 || used[0]) {
+				for _, sh := range shapes {
+					next = append(next, op{kind: opSub, sub: i, types: sh})
+				}
+			}
+			if r.subs[i].have && unsubs[i] < 2 {
+				next = append(next, op{kind: opUnsub, sub: i})
+			}
+		}
+		next = append(next, op{kind: opPostA, id: id}, op{kind: opPostB, id: id}, op{kind: opStop})
+		for _, o := range next {
+			u, k := used, unsubs
+			if o.kind == opSub {
+				u[o.sub] = true
+			}
+			if o.kind == opUnsub {
+				k[o.sub]++
+			}
+			gen(append(prefix, o), u, k)
+		}
+	}
+	gen(nil, [2]bool{}, [2]int{})
+	return out
+}
+
+func checkSeq(x *vsched.Exec, sc scenario, w *world) {
+	seq := w.ops[0]
+	r := refRun(sc.threads[0])
+	for i, o := range seq {
+		if o.err != r.errs[i] {
+			x.Fail("sequential-history-result-differs-from-reference:"+opClass(sc.threads[0], i), fmt.Sprintf("operation %d (%s) returned %v, reference %v", i, o, o.err, r.errs[i]))
+		}
+	}
+	var summary []string
+	for si := 0; si < 2; si++ {
+		s := w.subs[si]
+		if (s != nil) != r.subs[si].have {
+			x.Fail("sequential-history-subscription-differs-from-reference", fmt.Sprintf("slot %d: Subscribe returned nil=%v, reference nil=%v", si, s == nil, !r.subs[si].have))
+		}
+		if s == nil || !r.subs[si].have {
+			continue
+		}
+		var ids []string
+		closed := false
+	drain:
+		for {
+			select {
+			case e, ok := <-s.Chan():
+				if !ok {
+					closed = true
+					break drain
+				}
+				ids = append(ids, fmt.Sprintf("%T%v", e.Data, e.Data))
+			default:
+				break drain
+			}
+		}
+		if fmt.Sprint(ids) != fmt.Sprint(r.subs[si].q) {
+			x.Fail("sequential-history-deliveries-differ-from-reference", fmt.Sprintf("subscriber %d (%q) holds %v, reference %v", si, r.subs[si].types, ids, r.subs[si].q))
+		}
+		if r.subs[si].closedAny {
+			if !closed {
+				summary = append(summary, fmt.Sprintf("s%d:open-after-stop", si))
+			}
+		} else if closed != r.subs[si].closed || s.Closed() != r.subs[si].closed {
+			x.Fail("sequential-history-closed-state-differs-from-reference", fmt.Sprintf("subscriber %d: channel closed=%v Closed()=%v, reference %v", si, closed, s.Closed(), r.subs[si].closed))
+		}
+		summary = append(summary, fmt.Sprintf("s%d:%d", si, len(ids)))
+	}
+	nerr := 0
+	for _, e := range r.errs {
+		if e != nil {
+			nerr++
+		}
+	}
+	x.Observe(fmt.Sprintf("%s errors:%d", strings.Join(summary, " "), nerr))
+}
+
+// opClass names operation i of a sequential history by what the reference says about it.
+func opClass(seq []op, i int) string {
+	o := seq[i]
+	r := refRun(seq[:i])
+	switch o.kind {
+	case opSub:
+		switch {
+		case r.stopped:
+			return "subscribe-after-stop"
+		case dupTypes(o.types):
+			return "rejected-subscribe"
+		case o.types == "":
+			return "empty-subscribe"
+		}
+		return "subscribe"
+	case opUnsub:
+		if r.subs[o.sub].closed {
+			return "unsubscribe-of-closed"
+		}
+		return "unsubscribe"
+	case opPostA, opPostB:
+		if r.stopped {
+			return "post-after-stop"
+		}
+		return "post"
+	}
+	return "stop"
+}
+
+func seqString(seq []op) string {
+	var s []string
+	for _, o := range seq {
+		s = append(s, o.String())
+	}
+	return strings.Join(s, ";")
+}
+
+// sequentialPart runs every history; returns (histories, executions, decisions, complete).
+func sequentialPart(run *ev.Run, n int, shapes []string) (int, int, int, bool) {
+	hs := seqHistories(n, shapes)
+	execs, decs, failing := 0, 0, 0
+	classes := map[string]int{}
+	for hi, h := range hs {
+		if run.OutOfTime() {
+			run.Capped(fmt.Sprintf("sequential histories: out of time after %d of %d", hi, len(hs)))
+			return hi, execs, decs, false
+		}
+		sc := scenario{name: "sequential", threads: [][]op{h}, nsubs: 2}
+		inflight = -1
+		st := vsched.Explore(vsched.Config{Name: "sequential", Bound: 0, Stall: 120 * time.Second, StopOnFirst: true}, body(sc, true))
+		execs += st.Executions
+		decs += st.Decisions
+		if st.Infra != "" {
+			if st.StallReproduced {
+				run.Violation("call-never-returns-under-schedule", fmt.Sprintf("sequential history %s: the same schedule stalled three times: %s", seqString(h), st.Infra), map[string]interface{}{"history": seqString(h), "schedule": st.StallSchedule})
+			} else {
+				run.Set("stall_not_reproduced", fmt.Sprintf("sequential history %s: %s", seqString(h), st.Infra))
+				run.Capped("an execution stalled once and did not stall again when its schedule was replayed twice (load or nondeterminism outside the scheduler)")
+			}
+			return hi, execs, decs, false
+		}
+		for o, c := range st.Outcomes {
+			classes[o] += c
+		}
+		for _, f := range st.Failures {
+			key, what := f.Key, f.What
+			if key == "deadlock" && inflight >= 0 {
+				// one thread: the operation in flight can never return. Named by the blocked call and the one before it.
+				key = "call-never-returns-in-sequential-history:" + opClass(h, inflight)
+				if inflight > 0 {
+					key += "-after-" + opClass(h, inflight-1)
+				}
+				what = fmt.Sprintf("operation %d (%s) never returns: %s", inflight, h[inflight], f.What)
+			}
+			run.Violation(key, fmt.Sprintf("sequential history %s: %s", seqString(h), what), map[string]interface{}{"history": seqString(h), "schedule": f.Schedule, "what": what})
+		}
+		if len(st.Failures) > 0 {
+			failing++
+			if failing >= 200 { // every key is reported once; a broken dispatcher fails thousands of histories
+				run.Set("sequential_histories_stopped_after_failures", failing)
+				return hi + 1, execs, decs, false
+			}
+		}
+	}
+	for o := range classes {
+		run.Outcome(fmt.Sprintf("sequential(%d ops) %s", n, o))
+	}
+	return len(hs), execs, decs, true
+}
+
 func main() {
 	logrus.SetOutput(io.Discard) // the dispatcher logs every event a full buffer drops
 	run := ev.Start("C39", "model_checking")
@@ -337,7 +643,7 @@ func main() {
 				exhaustive = false
 				break
 			}
-			st := vsched.Explore(cfg, body(sc))
+			st := vsched.Explore(cfg, body(sc, false))
 			if st.Infra != "" {
 				if st.StallReproduced {
 					run.Violation("call-never-returns-under-schedule", fmt.Sprintf("%s: the same schedule stalled three times: %s", sc.name, st.Infra), map[string]interface{}{"scenario": sc.name, "schedule": st.StallSchedule})
@@ -367,10 +673,22 @@ func main() {
 			}
 		}
 	}
+	// sequential histories against the exact reference
+	seqLen := run.Pick(4, 5)
+	nh, se, sd, complete := sequentialPart(run, seqLen, seqShapes(thorough))
+	totalExec += se
+	totalDec += sd
+	if !complete {
+		exhaustive = false
+	}
+	run.Set("sequential_histories", nh)
+	run.Set("sequential_history_length", seqLen)
+	run.Set("sequential_subscribe_argument_lists", fmt.Sprintf("%q", seqShapes(thorough)))
+	run.Sample(map[string]interface{}{"part": "sequential histories", "length": seqLen, "histories": nh, "schedules": se})
 	// determinism: one schedule replayed twice must give identical observations
 	sc := scenarios(false)[0]
-	o1, _, _, _ := vsched.Replay(vsched.Config{}, []int{1, 0, 1}, body(sc))
-	o2, _, _, _ := vsched.Replay(vsched.Config{}, []int{1, 0, 1}, body(sc))
+	o1, _, _, _ := vsched.Replay(vsched.Config{}, []int{1, 0, 1}, body(sc, false))
+	o2, _, _, _ := vsched.Replay(vsched.Config{}, []int{1, 0, 1}, body(sc, false))
 	if fmt.Sprint(o1) != fmt.Sprint(o2) {
 		// the dispatcher under the same schedule behaved differently (for instance an iteration order of its own):
 		// the schedules explored above do not determine its behaviour, so the bound is not covered; not a verdict
@@ -385,7 +703,7 @@ func main() {
 	if b, err := os.ReadFile(ev.Root() + "/.build/c39/sites.json"); err == nil {
 		run.Set("rewritten_sites", string(b))
 	}
-	run.Set("rule", "for each scenario (2-3 threads, 1-3 dispatcher operations each) every schedule with at most preemption_bound preemptions at lock / channel / select granularity is executed on the real dispatcher; states = distinct observed outcomes, transitions = scheduling decisions; every execution is checked: no deadlock, no panic, only subscribed types, no duplicates, per-poster order, no loss of events posted strictly inside the subscription, Post after Stop fails")
-	run.Assume("event/event.go is rewritten mechanically (sync -> vsync, time -> vtime, select/close -> scheduler points); the 65536-slot buffer cannot fill within these bounds; data races are outside this engine")
+	run.Set("rule", "for each scenario (2-3 threads, 1-3 dispatcher operations each) every schedule with at most preemption_bound preemptions at lock / channel / select granularity is executed on the real dispatcher; states = distinct observed outcomes, transitions = scheduling decisions; every execution is checked: no deadlock, no panic, only subscribed types, no duplicates, per-poster order, no loss of events posted strictly inside the subscription, Post after Stop fails, Subscribe refuses exactly the argument lists naming one type twice (argument lists A / A,B / A,A / A,B,A / B,A,B / B,B / empty occur in the scenarios). Sequential part: every sequence of sequential_history_length operations over {subscribe slot 0/1 with each list of sequential_subscribe_argument_lists, unsubscribe slot 0/1 (at most twice), post A, post B, stop} run by one thread on the real dispatcher; every call must return, and results, held events (first 4 of the subscribed types posted while subscribed, in order) and closed state must equal an exact sequential reference")
+	run.Assume("event/event.go is rewritten mechanically (sync -> vsync, time -> vtime, select/close -> scheduler points); the 65536-slot buffer cannot fill within these bounds; data races are outside this engine; in the sequential part nobody reads before the end of the history and each slot subscribes once")
 	run.Finish()
 }
